@@ -268,7 +268,7 @@ func VerifH_C10_reference_edges() {
 	targets := verifTargets()
 	tg := targets[verifrt.Choice("target", len(targets))]
 	field := []string{"input", "wait_for", "enabled", "stop_if", "deploy"}[verifrt.Choice("field", 5)]
-	tag := verifrt.Choice("tag", 4) // 0 plain, 1 wait-optional, 2 soft-optional, 3 one-of with two options
+	tag := verifrt.Choice("tag", 6) // 0 plain, 1 wait-optional, 2 soft-optional, 3 one-of with two options, 4/5 soft-/wait-optional inside a one-of option
 	ref := vx(tg.path...)
 	var slot any = ref
 	stage := map[string]string{"input": "starting", "wait_for": "starting", "enabled": "enabling", "stop_if": "cancelled", "deploy": "deploy"}[field]
@@ -296,6 +296,22 @@ func VerifH_C10_reference_edges() {
 			"node " + group + ".p kind=dependencyGroup", "node " + group + ".q kind=dependencyGroup",
 			group + " <- " + group + ".p (or)", group + " <- " + group + ".q (or)",
 			group + ".p <- " + tg.node + " (and)", group + ".q <- input (and)"}
+	}
+	if tag == 4 || tag == 5 {
+		// tags nested in one another: the optional value keeps the dependency kind its own tag demands
+		kind := "(optional)"
+		if tag == 5 {
+			kind = "(completion-and)"
+		}
+		slot = &infer.OneOfExpression{Discriminator: "kind", Options: map[string]any{
+			"p": map[any]any{"v": &infer.OptionalExpression{Expr: ref, WaitForCompletion: tag == 5}},
+			"q": map[any]any{"v": vx("input")},
+		}}
+		opt := group + ".p.v"
+		want = []string{"node " + group + " kind=dependencyGroup", consumer + " <- " + group + " (and)",
+			"node " + group + ".p kind=dependencyGroup", "node " + group + ".q kind=dependencyGroup", "node " + opt + " kind=dependencyGroup",
+			group + " <- " + group + ".p (or)", group + " <- " + group + ".q (or)",
+			group + ".p <- " + opt + " " + kind, opt + " <- " + tg.node + " (and)", group + ".q <- input (and)"}
 	}
 	if tg.node == "input" {
 		// references to the workflow input are connected from the input node (always resolved first)
@@ -578,4 +594,62 @@ func VerifH_C17_concurrent_prepare() {
 	e1, e2 := <-done, <-done
 	verifrt.Reach("both-prepared")
 	verifrt.Assert(e1 == nil && e2 == nil, "both workflows are accepted")
+}
+
+// C16: consistently renaming the steps (including names of which one is a prefix of another, names that
+// sort differently, names with separators in them) changes nothing but the names: same verdict, and the
+// same dependency graph once the names are mapped back.
+func VerifH_C16_renaming() {
+	run := &vRun{steps: map[string]*vStep{}, emitted: map[string]int{}, emittedV: map[string]any{}}
+	namings := [][3]string{
+		{"a", "b", "c"},       // reference naming
+		{"a", "ab", "abc"},    // each name a prefix of the next
+		{"abc", "ab", "a"},    // ... and the other way round
+		{"z", "y", "x"},       // reverse alphabetical order
+		{"s_1", "s_10", "s_2"}, // numeric suffixes, underscores
+	}
+	mk := func(n [3]string) tWorkflow {
+		p, c, d := n[0], n[1], n[2]
+		return tWorkflow{
+			steps: []tStep{
+				{id: p, fields: map[string]any{"input": verifStepInput(vx("input"))}},
+				{id: c, fields: map[string]any{
+					"input":    map[any]any{"x": vx("steps", p, "outputs", "success", "v"), "y": &infer.OptionalExpression{Expr: vx("steps", d, "outputs", "error"), WaitForCompletion: true}},
+					"wait_for": vx("steps", p, "outputs"),
+				}},
+				{id: d, fields: map[string]any{"input": verifStepInput(vx("input"))}},
+			},
+			outputs: map[string]any{"success": map[any]any{"r": vx("steps", c, "outputs", "success", "v")}},
+		}
+	}
+	back := func(lines []string, n [3]string) []string {
+		var res []string
+		for _, l := range lines {
+			// step names appear as "steps.<name>." (or at the end of a node id of the step itself)
+			for i, ph := range []string{"<P>", "<C>", "<D>"} {
+				l = strings.ReplaceAll(l, "steps."+n[i]+".", "steps."+ph+".")
+			}
+			res = append(res, l)
+		}
+		sort.Strings(res)
+		return res
+	}
+	ew0, err0 := verifExecutor(run).Prepare(verifWorkflow(mk(namings[0])), nil)
+	verifrt.Assert(err0 == nil, "the reference workflow is accepted")
+	if err0 != nil {
+		return
+	}
+	edges0 := back(verifCanon(verifEdges(ew0.DAG())), namings[0])
+	k := 1 + verifrt.Choice("naming", len(namings)-1)
+	ew1, err1 := verifExecutor(run).Prepare(verifWorkflow(mk(namings[k])), nil)
+	verifrt.Assert(err1 == nil, "consistently renaming the steps does not change the verdict")
+	if err1 != nil {
+		return
+	}
+	verifrt.Reach("renamed")
+	a, b := verifDiff(edges0, back(verifCanon(verifEdges(ew1.DAG())), namings[k]))
+	if len(a)+len(b) > 0 {
+		verifrt.Event("only in reference: " + strings.Join(a, " | ") + " only in renamed: " + strings.Join(b, " | "))
+	}
+	verifrt.Assert(len(a) == 0 && len(b) == 0, "consistently renaming the steps changes nothing but the names in the dependency graph")
 }
